@@ -504,6 +504,21 @@ pub fn eval_case(ops: &[Op], drv: Option<&mut Drv>, pools: &[Pool], rng: &mut Rn
             }
         }
     }
+    // --- the plan of a built dispatcher is fixed: after all these dispatches (pools narrower than
+    // its stages included) the same systems sit at the same places
+    if !cfg.panics {
+        if let AnyDisp::D(d) = &mut disp {
+            shared.reset_behaviour();
+            match identify(d, &shared, &built) {
+                Ok(l2) => {
+                    if l2.show() != lay.show() {
+                        out.impl_v.push(("C19".into(), format!("after {} dispatches the built dispatcher's plan is {} — it was {} when it was built", out.traces, l2.show(), lay.show())));
+                    }
+                }
+                Err(e) => out.impl_v.push(("C19".into(), format!("after {} dispatches the plan can no longer be identified: {}", out.traces, e))),
+            }
+        }
+    }
     out
 }
 
